@@ -666,4 +666,179 @@ theorem mobilityU_L2 (δ f z τ k c j kk : ℝ) (Dd Cd Jd Kd Td : Units.Dims) :
   rw [div_mul_div_comm]
   congr 1 <;> ring
 
+
+/-! ## round 10: permittivity range check in unit mode, viscosity monotone link, nernst with a units object / quantity constants (L2) -/
+
+
+theorem waterPermittivityUWarns_eq (τ p K bar : ℝ) (hK : 0 < K) (hb : 0 < bar) :
+    waterPermittivityUWarns (τ * K) (p * bar) bar K = waterPermittivityWarns τ p := by
+  rw [Bool.eq_iff_iff, waterPermittivityWarns_iff]
+  simp only [waterPermittivityUWarns, PyFn.warnGate, PyFn.anyS, Bool.true_and, NumReal.npow_eq_pow, NumReal.dec_eq, Int.cast_ofNat, Nat.cast_ofNat,
+    Nat.cast_one, Int.cast_neg, Bool.or_eq_true, Bool.and_eq_true, Bool.not_eq_true', decide_eq_true_eq, decide_eq_false_iff_not, Nat.cast_zero,
+    not_or, not_lt, Bool.or_eq_false_iff]
+  have e1 : τ * K < 27315 / 10 ^ 2 * K ↔ τ < 273.15 := by
+    rw [mul_lt_mul_iff_of_pos_right hK]; norm_num
+  have e2 : τ * K > 27315 / 10 ^ 2 * K + 350 * K ↔ 623.15 < τ := by
+    rw [show (27315 / 10 ^ 2 * K + 350 * K : ℝ) = (623.15 : ℝ) * K by ring, gt_iff_lt, mul_lt_mul_iff_of_pos_right hK]
+  have e3 : τ * K > 27315 / 10 ^ 2 * K + 70 * K ↔ 343.15 < τ := by
+    rw [show (27315 / 10 ^ 2 * K + 70 * K : ℝ) = (343.15 : ℝ) * K by ring, gt_iff_lt, mul_lt_mul_iff_of_pos_right hK]
+  have e4 : p * bar > 2000 * bar ↔ 2000 < p := by rw [gt_iff_lt, mul_lt_mul_iff_of_pos_right hb]
+  have e5 : p * bar > 5000 * bar ↔ 5000 < p := by rw [gt_iff_lt, mul_lt_mul_iff_of_pos_right hb]
+  simp only [e1, e2, e3, e4, e5]
+  constructor
+  · rintro ((h | h) | h)
+    · rcases h with h | h
+      · left; exact h
+      · right; left; exact h
+    · obtain ⟨⟨_, h2⟩, h3⟩ := h
+      right; right; exact ⟨h2, h3⟩
+    · obtain ⟨⟨⟨_, _⟩, h3⟩, h4⟩ := h
+      exfalso; nlinarith
+  · rintro (h | h | ⟨h1, h2⟩)
+    · left; left; left; exact h
+    · left; left; right; exact h
+    · by_cases hh : 623.15 < τ
+      · left; left; right; exact hh
+      · by_cases h0 : τ < 273.15
+        · left; left; left; exact h0
+        · have h0' := not_lt.mp h0
+          have hh' := not_lt.mp hh
+          left; right; exact ⟨⟨⟨by nlinarith, by nlinarith⟩, h1⟩, h2⟩
+
+/-- monotone link between the rational exponent of Korson's equation and the viscosity itself -/
+theorem waterViscosity_between {T lo hi : ℝ} (h1 : lo < viscExponent T) (h2 : viscExponent T < hi) :
+    1.002 * (10 : ℝ) ^ lo < waterViscosity T ∧ waterViscosity T < 1.002 * (10 : ℝ) ^ hi := by
+  rw [waterViscosity_eq]
+  have h10 : (1 : ℝ) < 10 := by norm_num
+  have a := (Real.rpow_lt_rpow_left_iff h10).mpr h1
+  have b := (Real.rpow_lt_rpow_left_iff h10).mpr h2
+  constructor <;> nlinarith
+
+
+theorem nernstU_L2_raw (a x b y z τ k c j kk mo : ℝ) (d Td Cd Jd Kd Md : Units.Dims) :
+    nernstPotentialU (α := UVm ℝ) (UV.mk a x d) (UV.mk b y d) (UV.num z) (UV.mk τ k Td)
+            (UV.mk 1 c Cd) (UV.mk 1 j Jd) (UV.mk 1 kk Kd) (UV.mk 1 mo Md)
+      = UV.mk ((Num.dec 83144598 7 * (1 / 1 / 1) * τ) / (z * (Num.dec 9648533289 5 * (1 / 1))) * Real.log (a / b * (x / y)))
+              ((j / kk / mo * k) / (c / mo))
+              (Units.Dims.sub (Units.Dims.add (Units.Dims.sub (Units.Dims.sub Jd Kd) Md) Td) (Units.Dims.sub Cd Md)) := by
+  simp only [nernstPotentialU, UV.mk, HDiv.hDiv, Div.div, HMul.hMul, Mul.mul, UV.div, UV.mul, HasToUnitless.toUnitless, UV.toUnitless,
+    dimsZero_sub_self, if_true, HasLog.log, UV.mathFn]
+  rfl
+
+theorem nernstU_L2 (a x b y z τ k c j kk mo : ℝ) (d Td Cd Jd Kd Md : Units.Dims) :
+    UV.si (nernstPotentialU (α := UVm ℝ) (UV.mk a x d) (UV.mk b y d) (UV.num z) (UV.mk τ k Td)
+            (UV.mk 1 c Cd) (UV.mk 1 j Jd) (UV.mk 1 kk Kd) (UV.mk 1 mo Md))
+      = some (nernstPotentialU (a * x) (b * y) z (τ * k) c j kk mo,
+              Units.Dims.sub (Units.Dims.add (Units.Dims.sub (Units.Dims.sub Jd Kd) Md) Td) (Units.Dims.sub Cd Md)) := by
+  rw [nernstU_L2_raw, UV.si_mk]
+  congr 2
+  simp only [nernstPotentialU, NumReal.dec_eq, NumReal.log_def, toUnitless_def]
+  rw [div_mul_div_comm a b x y]
+  generalize j / kk / mo = u
+  generalize c / mo = v
+  generalize Real.log (a * x / (b * y)) = L
+  rw [mul_comm _ L, mul_comm _ L, mul_assoc, div_mul_div_comm]
+  congr 1
+  congr 1 <;> ring
+
+theorem nernstCU_qconst_L2_raw (a x b y z τ k fF rR : ℝ) (d Td Fd Rd : Units.Dims) :
+    nernstPotentialCU (α := UVm ℝ) (UV.mk a x d) (UV.mk b y d) (UV.num z) (UV.mk τ k Td) (UV.mk 1 fF Fd) (UV.mk 1 rR Rd)
+      = UV.mk ((1 * τ) / (z * 1) * Real.log (a / b * (x / y))) (rR * k / fF) (Units.Dims.sub (Units.Dims.add Rd Td) Fd) := by
+  simp only [nernstPotentialCU, UV.mk, HDiv.hDiv, Div.div, HMul.hMul, Mul.mul, UV.div, UV.mul, HasToUnitless.toUnitless, UV.toUnitless,
+    dimsZero_sub_self, if_true, HasLog.log, UV.mathFn]
+  rfl
+
+theorem nernstCU_qconst_L2 (a x b y z τ k fF rR : ℝ) (d Td Fd Rd : Units.Dims) :
+    UV.si (nernstPotentialCU (α := UVm ℝ) (UV.mk a x d) (UV.mk b y d) (UV.num z) (UV.mk τ k Td) (UV.mk 1 fF Fd) (UV.mk 1 rR Rd))
+      = some (nernstPotentialC (a * x) (b * y) z (τ * k) fF rR, Units.Dims.sub (Units.Dims.add Rd Td) Fd) := by
+  rw [nernstCU_qconst_L2_raw, UV.si_mk, nernstC_eq, div_mul_div_comm a b x y]
+  congr 2
+  generalize Real.log (a * x / (b * y)) = L
+  rw [mul_comm _ L, mul_comm _ L, mul_assoc, div_mul_div_comm]
+  congr 1
+  congr 1 <;> ring
+
+
+/-! ## round 11: L2 for Henry with explicit T0, water density, water self-diffusion -/
+
+
+theorem henryT0U_L2_raw (τ f H θ g τ0 f0 k : ℝ) :
+    henryHAtTU (α := UV ℝ) (UV.mk τ f Tdim') (UV.num H) (UV.mk θ g Tdim') (UV.mk τ0 f0 Tdim') (UV.mk 1 k Tdim')
+      = UV.num (H * Real.exp (θ * (1 / τ - (1 / τ0) * ((1 / f0) / (1 / f))) * (g * (1 / f)))) := by
+  simp only [henryHAtTU, UV.mk, UVL.add_def, UVL.sub_def, UVL.mul_def, UVL.div_def, UVL.nat_def, UVL.tu_def, UVL.exp_def, UVL.dec_def,
+    UV.div, UV.mul, UV.addLike, UV.toUnitless, UV.transc, NumReal.dec_eq, beq_self_eq_true, if_true, dz1]
+  norm_num
+
+theorem henryT0U_L2 (τ f H θ g τ0 f0 k : ℝ) (hf : f ≠ 0) (hf0 : f0 ≠ 0) :
+    henryHAtTU (α := UV ℝ) (UV.mk τ f Tdim') (UV.num H) (UV.mk θ g Tdim') (UV.mk τ0 f0 Tdim') (UV.mk 1 k Tdim')
+      = UV.num (henryHAtT (τ * f) H (θ * g) (τ0 * f0)) := by
+  rw [henryT0U_L2_raw, henryHAtT_eq]
+  congr 3
+  by_cases hτ : τ = 0
+  · subst hτ
+    by_cases h0 : τ0 = 0
+    · subst h0; simp
+    · simp; field_simp
+  · by_cases h0 : τ0 = 0
+    · subst h0; simp; field_simp
+    · field_simp
+
+
+theorem waterDensityU_L2 (x f k g m : ℝ) (Md Ld : Units.Dims) (hf : f ≠ 0) (hk : k ≠ 0) :
+    UV.si (waterDensityU (α := UV ℝ) (UV.mk x f Tdim') (UV.mk 1 k Tdim') (UV.mk 1 g Md) (UV.mk 1 m Ld))
+      = some (waterDensity (x * f / k) * (g / m ^ 3),
+              (Md.sub ((Ld.add Ld).add Ld)).add (((Tdim'.add Tdim').add Tdim').sub ((Tdim'.add Tdim').add Tdim'))) := by
+  obtain ⟨s, rfl⟩ : ∃ s, x = s * (k / f) := ⟨x * f / k, by field_simp⟩
+  have hs : s * (k / f) * f / k = s := by field_simp
+  rw [hs]
+  simp only [waterDensityU, UV.mk, UVL.add_def, UVL.sub_def, UVL.mul_def, UVL.div_def, UVL.nat_def, UVL.neg_def, UVL.dec_def,
+    UV.div, UV.mul, UV.neg, UV.addLike, NumReal.dec_eq, Num.npow, beq_self_eq_true, if_true, dimsZero_sub_self,
+    Int.cast_ofNat, Nat.cast_ofNat, Nat.cast_one, UV.si]
+  congr 2
+  rw [waterDensity_eq]
+  have hr : k / f ≠ 0 := div_ne_zero hk hf
+  generalize hrdef : k / f = r at hr ⊢
+  have hF : f * f * f / (k * k * f) = 1 / (r * r) := by
+    rw [← hrdef]; field_simp
+  rw [hF]
+  have h0 : s * r - 27315 / 10 ^ 2 * 1 * r + -(3983035 / 10 ^ 6) * 1 * r = r * (s - 273.15 - 3.983035) := by ring
+  have h1 : s * r - 27315 / 10 ^ 2 * 1 * r + 301797 / 10 ^ 3 * 1 * r = r * (s - 273.15 + 301.797) := by ring
+  have h3 : s * r - 27315 / 10 ^ 2 * 1 * r + 6934881 / 10 ^ 5 * 1 * r = r * (s - 273.15 + 69.34881) := by ring
+  rw [h0, h1, h3]
+  generalize s - 273.15 - 3.983035 = u0
+  generalize s - 273.15 + 301.797 = u1
+  generalize s - 273.15 + 69.34881 = u3
+  have hq : 1 * (r * u0) * (r * u0) * (r * u1) / (5225289 / 10 ^ 1 * 1 * 1 * (r * u3)) = (r * r) * (u0 ^ 2 * u1 / (522528.9 * u3)) := by
+    rw [show 1 * (r * u0) * (r * u0) * (r * u1) = r * ((r * r) * (u0 ^ 2 * u1)) by ring,
+      show (5225289 / 10 ^ 1 * 1 * 1 * (r * u3) : ℝ) = r * (522528.9 * u3) by ring, mul_div_mul_left _ _ hr, mul_div_assoc]
+  rw [hq]
+  generalize u0 ^ 2 * u1 / (522528.9 * u3) = q
+  field_simp
+  ring
+
+
+theorem waterDiffusivityU_L2 (x f k m sc : ℝ) (Ld Sd : Units.Dims) (hf : 0 < f) (hk : 0 < k)
+    (hbase : 215.05 ≤ x * f / k) :
+    UV.si (waterDiffusivityU (α := UV ℝ) (UV.mk x f Tdim') (UV.mk 1 k Tdim') (UV.mk 1 m Ld) (UV.mk 1 sc Sd))
+      = some (waterDiffusivity (x * f / k) * (m ^ 2 / sc),
+              ((Ld.add Ld).add (Units.Dims.smul (-1) Sd)).add (Tdim'.sub Tdim')) := by
+  simp only [waterDiffusivityU, waterDiffusivity, UV.mk, UVL.add_def, UVL.sub_def, UVL.mul_def, UVL.div_def, UVL.nat_def, UVL.neg_def, UVL.dec_def,
+    UVL.rpow_def, UV.div, UV.mul, UV.neg, UV.addLike, UV.rpow, NumReal.dec_eq, Num.npow, NumReal.npow_eq_pow, beq_self_eq_true, if_true,
+    dimsZero_sub_self, Int.cast_ofNat, Nat.cast_ofNat, Nat.cast_one, NumReal.rpow_def, UV.si]
+  congr 2
+  have hr : 0 < f / k := div_pos hf hk
+  have hb : 0 ≤ x / (21505 / 10 ^ 2 * 1) - 1 / (f / k) := by
+    have h1 : x / (21505 / 10 ^ 2 * 1) - 1 / (f / k) = (x * f / k - 215.05) / (215.05 * (f / k)) := by
+      field_simp; ring
+    rw [h1]
+    apply div_nonneg (by linarith) (by positivity)
+  have key : (x / (21505 / 10 ^ 2 * 1) - 1 / (f / k)) ^ (2063 / 10 ^ 3 : ℝ) * (f / k) ^ (2063 / 10 ^ 3 : ℝ)
+      = (x * f / k / (21505 / 10 ^ 2 * 1) - 1) ^ (2063 / 10 ^ 3 : ℝ) := by
+    rw [← Real.mul_rpow hb hr.le]
+    congr 1
+    field_simp
+  calc _ = 1635 / 10 ^ 11 * (1 * 1 * 1) * (1 / (1 * 1)) * (m * m * (1 / sc)) *
+        ((x / (21505 / 10 ^ 2 * 1) - 1 / (f / k)) ^ (2063 / 10 ^ 3 : ℝ) * (f / k) ^ (2063 / 10 ^ 3 : ℝ)) := by ring
+    _ = _ := by rw [key]; ring
+
 end ChemModel.PhysProps
